@@ -456,6 +456,17 @@ func flushLog() {
 			case v := <-logQueue:
 				v.writer.Write(v.value)
 			case <-syncDone.Done():
+				// write what was logged before the flush request: both cases of this select may have
+				// been ready, so the queue is drained before completion is signalled
+				for {
+					select {
+					case v := <-logQueue:
+						v.writer.Write(v.value)
+						continue
+					default:
+					}
+					break
+				}
 				asyncCancel()
 				return
 			}
